@@ -19,22 +19,22 @@ ENGINES = [
 # id -> (technique, level text, level note, design section)
 CHECKS = {
  'C01': ('exhaustive enumeration of grammars x input strings within bounds, real parser vs reference LR(1) automaton and CFG membership',
-         'Bounded exhaustive model checking: every grammar with <=4 rules / <=5 right-side symbols over 2 nonterminals and 2-3 terminals (plus seeds), every string up to length 4-5; the real table is additionally compared as an automaton with canonical LR(1), which covers strings of every length for the explored grammars.',
+         'Bounded exhaustive model checking: every grammar with <=4 rules / <=5 right-side symbols (and 5-6 short rules) over 2 nonterminals and 2-3 terminals, ~750 seed grammars (textbook shapes in every rule order) each with all one-symbol variants, every string up to length 4-5 plus inputs with whitespace/newlines/foreign bytes; a table that differs from canonical LR(1) widens the string bound to 7; a watchdog turns a non-returning real call into a violation; DSL conformance replays bind the injected frames to what users compile.',
          'Trusted: the reference LR(1)/CFG models in /verif/ref (cross-checked against each other on every case) and the injection frame (grammar_info overwritten at run time, everything else is the real code).', '3 C01'),
  'C02': ('exhaustive enumeration of grammars x accepted inputs, functor-call log vs reference derivation tree',
-         'Bounded exhaustive model checking of the value stack discipline: for every accepted input of every LR(1) grammar in the bounds the tree built by the real reductions equals the derivation tree, each value produced once and consumed once.',
+         'Bounded exhaustive model checking of the value stack discipline: for every accepted input of every LR(1) grammar in the bounds the tree built by the real reductions equals the derivation tree, each value produced once and consumed once; plus a compiled program (rules without functor with 0-3 children of distinct types, typed term, helper functors, functors whose result type merely converts to the left side\'s type) on every input up to length 4-6 against an independent evaluator, and a deep right-recursion sweep to 70001 tokens.',
          'Uniform value type in the frames (term_value<int>); default functors, typed/custom terms and helper functors are decided by the compiled-program checks.', '3 C02'),
  'C09': ('exhaustive enumeration of grammars x inputs, captured error stream vs reference driver',
-         'Bounded exhaustive model checking of the failure path: every rejected input of every LR(1) grammar in the bounds yields exactly one report naming the first offending term and position; accepted inputs are silent.',
+         'Bounded exhaustive model checking of the failure path: every rejected input of every LR(1) grammar in the bounds (also with whitespace, newlines and foreign bytes) yields exactly one report naming the first offending term/byte and its position; accepted inputs are silent; plus a compiled grammar covering the name of every term kind.',
          'Single-character terms on one line; multi-line positions belong to C10, lexical errors to C04.', '3 C09'),
  'C11': ('exhaustive enumeration of grammars, diagnostic text vs dumped parse table vs reference LR(1) automaton (state isomorphism)',
-         'Bounded exhaustive model checking over grammar space including S/R, R/R and accept/reduce grammars: text == table the parser executes, conflict lines iff reference conflicts, rule and side named correctly.',
+         'Bounded exhaustive model checking over grammar space including S/R (both preferences, via precedence assignments), R/R, accept/reduce and error-rule grammars: text == table the parser executes, conflict lines iff reference conflicts (R/R line wherever two reductions compete), rule and side named correctly.',
          'Item sets are identified with canonical LR(1) item sets; cells whose behaviour is documented as undefined (R/R) are judged only on the presence of a conflict line.', '3 C11'),
  'C16': ('exhaustive enumeration of grammars x inputs x call forms; verbose trace replayed against the dumped table and the functor log',
-         'Bounded exhaustive model checking: five call forms per input must agree on result and functor log; the verbose text must be a legal, complete run of the real table that announces exactly the functor calls made.',
+         'Bounded exhaustive model checking: five call forms per input must agree on result and functor log; the verbose text must be a legal, complete run of the real table that announces exactly the functor calls made, its REGEX MATCH lines a walk of the dumped lexer table, every position prefix the true line/column (inputs with whitespace and newlines included).',
          'Lexer trace lines (REGEX MATCH) are not interpreted here.', '3 C16'),
  'C08': ('exhaustive enumeration of error-rule grammars x inputs, real recovery vs the documented recovery procedure on the reference table',
-         'Bounded exhaustive model checking of error recovery: every conflict-free grammar of the error-rule frames, every string up to the bound (errors at every depth relative to the states accepting error, first/last token, end of input, consecutive).',
+         'Bounded exhaustive model checking of error recovery: every conflict-free grammar of the error-rule frames (2-3 terminals), every string up to the bound (errors at every depth relative to the states accepting error, first/last token, end of input, consecutive); plus 4 compiled grammars (README, two nesting levels, no_type-valued typed term, custom lexer) on every input up to length 5-7.',
          'The documented procedure is formalised in ref::drive; "action on error" includes reductions on the error lookahead.', '3 C08'),
  'C05': ('exhaustive enumeration of S/R grammars x precedence/associativity assignments, resolved table and tree shapes vs documented rule',
          'Bounded exhaustive model checking: all grammars in the bounds with a shift/reduce cell, all assignments of precedence levels and associativities to the terms involved and explicit rule precedences; table compared cell by cell, then all strings parsed and grouping compared.',
@@ -52,8 +52,8 @@ CHECKS = {
          'Bounded exhaustive model checking over input space (length <=5 quick, <=7 thorough, 7-byte alphabet incl. tab, CR, LF) for 3 term sets x 2 grammars (one with error recovery).',
          'Uses the lexer frame (a compiled parser whose lexer table is rebuilt at run time through the library\'s own builder calls).', '3 C10'),
  'C17': ('exhaustive enumeration of all strings up to a length bound as patterns; three-valued reference classifier; checked buffer for reads past the end',
-         'Bounded exhaustive model checking over pattern-string space: every string up to length 4 (quick) / 5 and 7 over metacharacters (thorough).',
-         'Undeclared-symbol grammars (second half of the statement) are decided by the compile-time program enumerator.', '3 C17'),
+         'Bounded exhaustive model checking over pattern-string space: every string up to length 4 (quick) / 5 over 21 symbols, up to 6-7 over set and metacharacter alphabets; plus a compiled program constructing parsers that mention undeclared symbols in every position kind.',
+         'Refusal is observed as an exception at run-time construction (the same code path makes a constexpr object ill-formed).', '3 C17'),
  'C06': ('exhaustive enumeration of grammars x inputs and of byte strings on compiled grammars through a checked user buffer / every buffer kind, with the cvector bounds hook and ASan+UBSan as oracles',
          'Bounded exhaustive model checking: (1) every LR(1) grammar of the E-GRAM bounds x every string up to length 4-5 through a checked user buffer and cstring_buffer<N>; (2) 3 compiled grammars x every byte string up to length 3-4 over 8-9 bytes incl. NUL/0x80/0xff/whitespace x 4 buffer kinds x 3 option sets under ASan+UBSan; (3) regex::expr::match x every string up to length 4-6; termination by step horizon. Depth sweeps to 1e5 are a one-dimensional sample.',
          'Sanitizer build uses clang++ (g++ 12 cannot constant-evaluate the header under -fsanitize=null). "Very long or deeply nested input" is only sampled.', '3 C06'),
@@ -64,8 +64,8 @@ CHECKS = {
          'Bounded exhaustive exploration: 4 literal-typed grammars x every input up to length 3-4 (quick) / 4-6 (thorough) x 2 compilers; the constant evaluator doubles as a complete undefined-behaviour oracle for the failure paths.',
          'Results are ints; a context grammar is not included.', '3 C07'),
  'C15': ('explicit enumeration of call histories + stateless preemption-bounded schedule exploration (baton-passing scheduler, choice-sequence replay), read-only parser pages, static-data image comparison; ThreadSanitizer as side condition',
-         'Model checking of the real code: all call sequences up to depth 3 (quick) / 4 (thorough) over 11 calls; all schedules with at most 2 preemptions for 10 call pairs on 2 threads.',
-         'Not covered: more than 2 threads under the scheduler, more than 2 preemptions, weak memory orderings.', '3 C15'),
+         'Model checking of the real code: all call sequences up to depth 3 (quick) / 4 (thorough) over 14 calls; all schedules with at most 2 preemptions for 12 call pairs on 2 threads; all schedules with at most 1 (quick) / 2 (thorough) preemptions for 6 call triples on 3 threads.',
+         'Not covered: more than 3 threads under the scheduler, more than 2 preemptions, weak memory orderings.', '3 C15'),
  'C13': ('exhaustive enumeration of contextual/non-contextual functor assignments x context categories x inputs on compiled parsers',
          'Bounded exhaustive exploration of a finite configuration space (16 functor assignments x 6 call forms) crossed with every input up to the bound; every functor call is compared with the reduction sequence of the documented driver.',
          'One grammar shape (list with empty rule and a unit root rule); context types: a move-only struct; black box.', '3 C13'),
